@@ -42,6 +42,7 @@ const (
 	defaultBrokerImage           = "ghcr.io/kafscale/kafscale-broker:latest"
 	defaultBrokerImagePullPolicy = string(corev1.PullIfNotPresent)
 	publishRequeueDelay          = 5 * time.Second
+	defaultBrokerReplicas        = int32(3)
 )
 
 var brokerImage = getEnv("BROKER_IMAGE", defaultBrokerImage)
@@ -60,6 +61,18 @@ func NewClusterReconciler(mgr ctrl.Manager, publisher *SnapshotPublisher) *Clust
 		Scheme:    mgr.GetScheme(),
 		Publisher: publisher,
 	}
+}
+
+// desiredBrokerReplicas is the single source of truth for the broker count.
+// The StatefulSet, the broker container, the HPA floor and the published
+// metadata must agree on it, otherwise clients are sent to brokers that do not
+// exist (or never learn about brokers that do). An unset or non-positive value
+// (the CRD requires >= 1 and defaults to 3) falls back to the default.
+func desiredBrokerReplicas(cluster *kafscalev1alpha1.KafscaleCluster) int32 {
+	if r := cluster.Spec.Brokers.Replicas; r != nil && *r > 0 {
+		return *r
+	}
+	return defaultBrokerReplicas
 }
 
 // Reconcile ensures broker workloads exist for every KafscaleCluster spec.
@@ -141,10 +154,7 @@ func (r *ClusterReconciler) reconcileBrokerDeployment(ctx context.Context, clust
 	}}
 
 	_, err := controllerutil.CreateOrUpdate(ctx, r.Client, sts, func() error {
-		replicas := int32(3)
-		if cluster.Spec.Brokers.Replicas != nil {
-			replicas = *cluster.Spec.Brokers.Replicas
-		}
+		replicas := desiredBrokerReplicas(cluster)
 		labels := map[string]string{
 			"app":     "kafscale-broker",
 			"cluster": cluster.Name,
@@ -200,10 +210,7 @@ func (r *ClusterReconciler) deleteLegacyBrokerDeployment(ctx context.Context, cl
 func (r *ClusterReconciler) brokerContainer(cluster *kafscalev1alpha1.KafscaleCluster, endpoints []string) corev1.Container {
 	image := brokerImage
 	pullPolicy := parsePullPolicy(brokerImagePullPolicy)
-	replicas := int32(3)
-	if cluster.Spec.Brokers.Replicas != nil {
-		replicas = *cluster.Spec.Brokers.Replicas
-	}
+	replicas := desiredBrokerReplicas(cluster)
 	brokerHost := strings.TrimSpace(cluster.Spec.Brokers.AdvertisedHost)
 	if replicas > 1 {
 		brokerHost = ""
@@ -435,10 +442,7 @@ func (r *ClusterReconciler) reconcileBrokerHPA(ctx context.Context, cluster *kaf
 		},
 	}
 	_, err := controllerutil.CreateOrUpdate(ctx, r.Client, hpa, func() error {
-		min := int32(3)
-		if cluster.Spec.Brokers.Replicas != nil && *cluster.Spec.Brokers.Replicas > 0 {
-			min = *cluster.Spec.Brokers.Replicas
-		}
+		min := desiredBrokerReplicas(cluster)
 		max := min * 4
 		hpa.Spec.MinReplicas = &min
 		hpa.Spec.MaxReplicas = max
